@@ -345,6 +345,7 @@ func (child *partitionConsumer) dispatcher() {
 		case <-child.dying:
 			close(child.trigger)
 		case <-time.After(child.computeBackoff()):
+			verifHook("pc.redispatch", child.topic, child.partition)
 			if child.broker != nil {
 				child.consumer.unrefBrokerConsumer(child.broker)
 				child.broker = nil
@@ -468,6 +469,7 @@ feederLoop:
 		}
 
 		for i, msg := range msgs {
+			verifHook("pc.feed", child.topic, child.partition, msg.Offset)
 			child.interceptors(msg)
 		messageSelect:
 			select {
@@ -478,6 +480,7 @@ feederLoop:
 				firstAttempt = true
 			case <-expiryTicker.C:
 				if !firstAttempt {
+					verifHook("pc.expired", child.topic, child.partition, msg.Offset)
 					child.responseResult = errTimedOut
 					child.broker.acks.Done()
 				remainingLoop:
@@ -808,6 +811,7 @@ func (bc *brokerConsumer) subscriptionConsumer() {
 			bc.abort(err)
 			return
 		}
+		verifHook("bc.fetched", bc.broker.ID())
 
 		bc.acks.Add(len(bc.subscriptions))
 		for child := range bc.subscriptions {
